@@ -3,20 +3,21 @@
 (* inductive invariant of Build!Spec discharged with the TLA+ proof system (tlapm).        *)
 EXTENDS Build, TLAPS
 
-TypeOK == /\ pc \in 1..10
+TypeOK == /\ pc \in 1..11
           /\ status \in {"running", "ok", "failed"}
           /\ failAt \in FailPoints
           /\ cfg \in Cfgs
           /\ files \in [Names -> {0, 1}]
 
-(* nothing is written before step 7 is executed; a failure not caused by I/O happens at steps 1..6 *)
+(* nothing is written before step 8 is executed; a failure not caused by I/O happens at steps 1..7 *)
 IndInv == /\ TypeOK
-          /\ pc <= 7 => \A f \in Names : files[f] = 0
-          /\ (status = "failed" /\ failAt # "io") => pc <= 6
+          /\ pc <= 8 => \A f \in Names : files[f] = 0
+          /\ (status = "failed" /\ failAt # "io") => pc <= 7
 
-LEMMA StepsFacts == /\ Len(Steps) = 10
+LEMMA StepsFacts == /\ Len(Steps) = 11
                     /\ Steps[1] = "config" /\ Steps[2] = "mkdir" /\ Steps[3] = "parse" /\ Steps[4] = "codegen" /\ Steps[5] = "checkformat"
-                    /\ Steps[6] = "merge" /\ Steps[7] = "writebanks" /\ Steps[8] = "writelisting" /\ Steps[9] = "writesymbols" /\ Steps[10] = "done"
+                    /\ Steps[6] = "merge" /\ Steps[7] = "listing" /\ Steps[8] = "writebanks" /\ Steps[9] = "writelisting" /\ Steps[10] = "writesymbols"
+                    /\ Steps[11] = "done"
   BY DEF Steps
 
 THEOREM InitInv == Init => IndInv
@@ -27,12 +28,12 @@ THEOREM NextInv == IndInv /\ [Next]_vars => IndInv'
     OBVIOUS
   <1> USE StepsFacts
   <1>1. CASE Step
-    <2>1. pc \in 1..10 /\ status = "running"
+    <2>1. pc \in 1..11 /\ status = "running"
       BY <1>1 DEF Step, IndInv, TypeOK
     <2>2. CASE Fails(Steps[pc])
       <3>1. status' = "failed" /\ pc' = pc /\ files' = files /\ failAt' = failAt /\ cfg' = cfg
         BY <1>1, <2>2 DEF Step
-      <3>2. failAt # "io" => pc <= 6
+      <3>2. failAt # "io" => pc <= 7
         BY <2>1, <2>2 DEF IndInv, TypeOK, Fails, FailPoints
       <3> QED BY <3>1, <3>2 DEF IndInv, TypeOK
     <2>3. CASE ~Fails(Steps[pc]) /\ Steps[pc] = "done"
@@ -43,9 +44,9 @@ THEOREM NextInv == IndInv /\ [Next]_vars => IndInv'
       <3>1. /\ files' = [f \in Names |-> IF f \in Writes(Steps[pc]) THEN 1 ELSE files[f]]
             /\ pc' = pc + 1 /\ status' = status /\ failAt' = failAt /\ cfg' = cfg
         BY <1>1, <2>4 DEF Step
-      <3>2. pc \in 1..9
+      <3>2. pc \in 1..10
         BY <2>1, <2>4
-      <3>3. pc <= 6 => Writes(Steps[pc]) = {}
+      <3>3. pc <= 7 => Writes(Steps[pc]) = {}
         BY <2>1 DEF Writes
       <3>4. files' \in [Names -> {0, 1}]
         BY <3>1 DEF IndInv, TypeOK
